@@ -358,3 +358,36 @@ def arm_calls(body, es):
                   if body.blocks[i].get("term", {}).get("k") == "call"
                   and not is_noise(body.blocks[i]["term"]) and not is_logging(body.blocks[i]["term"])]
     return out
+
+
+def origin_calls(body, place, _seen=None, depth=0):
+    """Real calls whose result a place is (a reference to / moved from /
+    awaited from / `?`-unwrapped from): follows use/ref/cast statements and
+    desugaring calls only — unlike the value-flow graph it does not mix in the
+    other arguments of calls that take the value by &mut."""
+    _seen = _seen if _seen is not None else set()
+    l = cfg.place_local(place)
+    if l in _seen or depth > 40:
+        return set()
+    _seen.add(l)
+    out = set()
+    for (bi, st, is_term) in cfg.defs_of(body).get(l, []):
+        if is_term:
+            if st["k"] != "call":
+                continue
+            if is_noise(st) or cname(st) in RESULT_ADAPTORS:
+                for a in st["args"][:1]:
+                    p = cfg.op_place(a)
+                    if p is not None:
+                        out |= origin_calls(body, p, _seen, depth + 1)
+            else:
+                out.add(bi)
+        else:
+            k = st.get("k")
+            if k in ("use", "cast"):
+                p = cfg.op_place(st["ops"][0])
+                if p is not None:
+                    out |= origin_calls(body, p, _seen, depth + 1)
+            elif k in ("ref", "refmut", "rawptr"):
+                out |= origin_calls(body, st["p"], _seen, depth + 1)
+    return out
